@@ -124,7 +124,13 @@ func ParseStatement(p *ParserZH) syntax.Statement {
 		p.setStmtCurrentLine(s, tk)
 	} else {
 		// other case, parse syntax.syntax.Expression
+		// (as a statement it stands on the line it BEGINS on; the expression node itself
+		// carries the line of its top-level operator, which may be a later one)
+		firstTk := *p.peek()
 		s = ParseExpression(p)
+		if firstTk.Type != TypeEOF {
+			p.setStmtCurrentLine(s, &firstTk)
+		}
 	}
 
 	// normally, a complete statement should occupy a whole line
